@@ -132,6 +132,20 @@ impl Val {
         })
     }
 
+    /// serialize::serialize_to / serialize::load_from (the file-level convenience functions).
+    pub fn serialize_to_file(&self, p: &std::path::Path) -> io::Result<()> { each!(self, x => serialize::serialize_to(x, p)) }
+    pub fn load_from_file(&self, p: &std::path::Path) -> io::Result<Val> {
+        use serialize::load_from as lf;
+        Ok(match self {
+            Val::U64(_) => Val::U64(lf(p)?), Val::Usize(_) => Val::Usize(lf(p)?), Val::Pair(_) => Val::Pair(lf(p)?),
+            Val::VecU64(_) => Val::VecU64(lf(p)?), Val::VecPair(_) => Val::VecPair(lf(p)?), Val::Bytes(_) => Val::Bytes(lf(p)?), Val::Str(_) => Val::Str(lf(p)?),
+            Val::OptVecU64(_) => Val::OptVecU64(lf(p)?), Val::OptVecPair(_) => Val::OptVecPair(lf(p)?), Val::OptBytes(_) => Val::OptBytes(lf(p)?), Val::OptStr(_) => Val::OptStr(lf(p)?),
+            Val::OptRaw(_) => Val::OptRaw(lf(p)?), Val::OptInt(_) => Val::OptInt(lf(p)?), Val::OptOptBytes(_) => Val::OptOptBytes(lf(p)?),
+            Val::Raw(_) => Val::Raw(lf(p)?), Val::Int(_) => Val::Int(lf(p)?), Val::Bv(_) => Val::Bv(lf(p)?), Val::Sparse(_) => Val::Sparse(lf(p)?), Val::RL(_) => Val::RL(lf(p)?),
+            Val::WMCore(_) => Val::WMCore(lf(p)?), Val::WM(_) => Val::WM(lf(p)?),
+        })
+    }
+
     pub fn is_option(&self) -> bool {
         matches!(self, Val::OptVecU64(_) | Val::OptVecPair(_) | Val::OptBytes(_) | Val::OptStr(_) | Val::OptRaw(_) | Val::OptInt(_) | Val::OptOptBytes(_))
     }
@@ -225,7 +239,24 @@ pub fn replay_stream(case: &Value, tally: &mut Tally, via_file: bool) {
         let mut rest = Vec::new();
         let _ = counting.read_to_end(&mut rest);
         out.push((vals.len(), "nothing left in the stream after loading every structure", json!(0), json!(rest.len())));
-        if let Some(p) = path { let _ = std::fs::remove_file(p); }
+        if let Some(p) = path.filter(|p| { if vals.is_empty() { let _ = std::fs::remove_file(p); } !vals.is_empty() }) {
+            // serialize_to over an existing, longer file: the file is exactly the serialization afterwards; load_from reads it back
+            let v = &vals[0];
+            let single = &buf[..8 * (offsets[1] - offsets[0])];
+            std::fs::write(&p, vec![0xFFu8; single.len() + 24]).unwrap();
+            let res = v.serialize_to_file(&p);
+            out.push((0, "serialize_to returns Ok", json!(true), json!(res.is_ok())));
+            let on_disk = std::fs::read(&p).unwrap();
+            out.push((0, "serialize_to over a longer existing file leaves exactly the serialization (length)", json!(single.len()), json!(on_disk.len())));
+            out.push((0, "serialize_to over a longer existing file leaves exactly the serialization (bytes)", json!(true), json!(on_disk == single)));
+            match v.load_from_file(&p) {
+                Ok(copy) => { out.push((0, "load_from(file) == original", json!(true), json!(copy == *v))); out.push((0, "load_from(file) answers as the original", v.answers(), copy.answers())); },
+                Err(e) => out.push((0, "load_from returns Ok", json!("ok"), json!(e.to_string()))),
+            }
+            let _ = std::fs::remove_file(&p);
+            let missing = v.load_from_file(&p);
+            out.push((0, "load_from on a missing file is an error", json!(true), json!(missing.is_err())));
+        }
         out
     });
     match r {
